@@ -92,6 +92,7 @@ def format_tag_value(value: Any) -> str:
     if (
         isinstance(value, str)
         and not re.match(".*[ ,].*", value)
+        and value[:1] not in ("[", "{", '"')
         and isinstance(parse_tag_value(value), str)
     ):
         return value
